@@ -272,6 +272,35 @@ mut("c15-foreach-context-cancel-after-wait", [(L, LFE_FULL, SEL_FE.replace("""	s
 	}()
 	<-ctx.Done()""")), (L, '	"bytes"\n', '	"bytes"\n	"context"\n')], [], ["C15"], note="PRESERVING: a context cancelled once all callbacks are done, caller waits on ctx.Done()")
 
+mut("c15-foreach-ticker-heartbeat", [(L, LFE_FULL, SEL_FE.replace("""	select {
+	case <-done:
+	}""", """	ticker := time.NewTicker(10 * time.Millisecond)
+	defer ticker.Stop()
+	beats := 0
+	for waiting := true; waiting; {
+		select {
+		case <-done:
+			waiting = false
+		case <-ticker.C:
+			beats++
+		}
+	}""")), (L, '	"sync"\n)', '	"sync"\n	"time"\n)')], [], ["C15"], note="PRESERVING: counts heartbeats from a ticker while waiting for all callbacks")
+mut("c15-foreach-ticker-gives-up", [(L, LFE_FULL, SEL_FE.replace("""	select {
+	case <-done:
+	}""", """	ticker := time.NewTicker(100 * time.Millisecond)
+	defer ticker.Stop()
+	beats := 0
+	for waiting := true; waiting; {
+		select {
+		case <-done:
+			waiting = false
+		case <-ticker.C:
+			if beats++; beats > 20 {
+				waiting = false
+			}
+		}
+	}""")), (L, '	"sync"\n)', '	"sync"\n	"time"\n)')], ["C15"], note="stops waiting after 20 heartbeats of 100 ms")
+
 # ---------------------------------------------------------------- C04
 mut("c04-accept-eof-after-string", [(P, """	// No matching rule - error
 	return nil, 0, fmt.Errorf("not a valid JSON - unexpected end of input")
